@@ -190,7 +190,8 @@ impl Hist {
                 _ => (false, false),
             };
             // sum(0) only of an operand that is tracked right now (see program.rs: aliasing artefact)
-            let alias_of_untracked = is_alias && {
+            let soft = matches!(&self.st.p.nodes[idx], Node::Op { kind, .. } if kind.is_soft_alias());
+            let alias_of_untracked = is_alias && soft && {
                 let a0 = match &self.st.p.nodes[idx] {
                     Node::Op { args, .. } => args[0],
                     _ => 0,
